@@ -6,6 +6,7 @@ MODULES = ["TLVerif.Props.C10"]
 THEOREMS = ["TLVerif.Props.C10." + t for t in [
     "readTL1M_map_eq", "dictNormalize_of_ascending", "dictStore_strict", "strict_le",
     "bytes_variant_agrees_on_canonical", "bytes_variant_rewrites_equal",
+    "bytes_variant_canonical", "string_variant_canonical_on_canonical_input",
     "strict_accepts_example", "canonical_example", "variants_differ_on_duplicate_key", "variants_differ_on_unsorted_keys"]]
 
 
@@ -32,7 +33,7 @@ BYTES_DICT_TL2_KEY = "bytes-dict-ReadTL2-reads-into-copy:qt_dict.qtpl BytesInter
 def run(c):
     known_lines = set()
     if MODULES:
-        c.lean(MODULES, THEOREMS, sources=["TLVerif.Codec.TL1", "TLVerif.Codec.BytesVariant"])
+        c.lean(MODULES, THEOREMS, sources=["TLVerif.Codec.TL1", "TLVerif.Codec.BytesVariant", "TLVerif.Codec.BytesVariantCanon"])
     # only schemas generated with --generateByteVersions
     model, hcodec, schemas = cc.prepare(c, [s for s in cc.corpus(c) if s.bytes_wl])
     rng = c.rng
@@ -42,6 +43,21 @@ def run(c):
         res_s = c.tie("string-variant:" + sc.sid, lines, sc.impl, model, prefix=pre)
         # the []byte variant on ALL explored inputs (canonical or not) against the slice-dictionary model `readTL1M .slice`
         res_sl = tie_mode(c, "slice-model:" + sc.sid, lines, sc.impl + ["-bytes"], model, pre, "slice=" + sc.bytes_wl)
+        # `bytes_variant_canonical` stated on the implementation: a white-listed root's []byte variant re-encodes every accepted
+        # input byte for byte (dictionaries included); its decidable hypotheses (closed, no `bit`) are the T3 certificate below
+        wl = [w for w in sc.bytes_wl.split(",") if w]
+        for l, a, _ in res_sl:
+            f = l.split(" ")
+            if not a.startswith("ok ") or not any((f[3].startswith(w) if w.endswith(".") else f[3] == w) for w in wl):
+                continue
+            n = int(a.split(" ")[1])
+            o = cc.outputs(a)
+            w = o.get("w1b" if f[4] == "1" else "w1")
+            c.count("[]byte variant: accepted inputs checked for byte-exact re-encoding")
+            if w in (None, "n/a"):
+                continue
+            if ("" if w == "-" else w) != ("" if f[5] == "-" else f[5])[:2 * n]:
+                c.oracle_fail(l, "[]byte variant accepted %d bytes but re-encodes them differently: %s" % (n, str(w)[:80]), l)
         ndiff = sum(1 for (_, a, _), (_, b, _) in zip(res_s, res_sl) if a != b)
         c.count("non-canonical inputs on which the variants legitimately differ (duplicate/unsorted keys)", ndiff)
         # canonical inputs (dictionaries sorted, no duplicates) = what the string variant wrote
